@@ -119,6 +119,12 @@ def implRes (s : String) : Option Nat :=
 def singleBitOf (sel provide : Nat) : Bool :=
   isPowerOfTwo sel && sel &&& provide != 0
 
+/-- The named hypothesis of `sync_found`, evaluated on the actual bytes: `key` does not occur in
+`pub ‖ pad ‖ key` at an offset in `[fr, 96 + |pad|)`. -/
+def noEarly (key pub pad : Bytes) (fr : Nat) : Bool :=
+  let s := pub ++ pad ++ key
+  (List.range (96 + pad.length)).all fun j => j < fr || (s.drop j).take key.length != key
+
 def runHS (p : Params) (t : List String) (implObs : String) : String × List String × List String :=
   let c := p.crypto
   let io := words implObs
@@ -168,7 +174,19 @@ def runHS (p : Params) (t : List String) (implObs : String) : String × List Str
        (if keyKnown then [] else ["C12 wrong-key-completed"])
      | some sa, none => [s!"C12 one-sided-completion a=ok:{sa} b={kvStr io "b"}"]
      | none, some sb => [s!"C12 one-sided-completion a={kvStr io "a"} b=ok:{sb}"]
-     | none, none => [])
+     | none, none => []) ++
+    -- liveness (`completes`): under the hypotheses of the theorem the handshake must complete
+    (let sKeyS := c.dh p.ya p.xb
+     let honest : Bool := decide (provide ≠ 0) && decide (provide < 4294967296) && decide (ia.length ≤ 65535) &&
+       decide keyKnown &&
+       (match selectedCheck (i.select provide) provide with | .ok _ => true | .error _ => false) &&
+       decide (o.padA.length ≤ 511) && decide (i.padB.length ≤ 511) && decide (o.padCLen ≤ 511) &&
+       decide (i.padDLen ≤ 511) &&
+       noEarly (c.req1 sKeyS) p.ya o.padA 96 &&
+       noEarly (xorAt (c.ks false sKeyS skey) 1024 vc) p.yb i.padB 96
+     if honest && (ia'.isNone || ib'.isNone) then
+       [s!"C12 honest-handshake-failed a={kvStr io "a"} b={kvStr io "b"} pads={o.padA.length},{i.padB.length},{o.padCLen},{i.padDLen}"]
+     else [])
   let tags :=
     (if isOk s.resA ∧ isOk s.resB then ["branch:both-ok", s!"branch:selected-{selOf s.resA}"] else ["branch:both-fail"]) ++
     (match s.resB with | .error e => [s!"branch:b-{e.toString}"] | _ => []) ++
